@@ -225,33 +225,46 @@ pub fn wf_check(t: &MarkerTree, above: Option<&(u8, usize, u8, String)>) -> Resu
 
 /// choose edges by hand while walking kind(); `None` if no edge of a range node contains the value
 pub fn hand_eval(t: &MarkerTree, e: &CEnv) -> Option<bool> {
-    let env = e.env();
     let extras = e.extras();
-    fn go(t: &MarkerTree, env: &pep508_rs::MarkerEnvironment, extras: &[ExtraName]) -> Option<bool> {
+    // the value of a variable is looked up by the PEP 508 name the node SHOWS for its key, in the harness's own record of the
+    // environment — not through `MarkerEnvironment::get_string / get_version` (which `evaluate()` uses: a wrong lookup there would
+    // be inherited by the walk)
+    fn sfield(e: &CEnv, name: &str) -> Option<String> {
+        let i = match name {
+            "implementation_name" => 0, "os_name" => 1, "platform_machine" => 2, "platform_python_implementation" => 3,
+            "platform_release" => 4, "platform_system" => 5, "platform_version" => 6, "sys_platform" => 7, _ => return None,
+        };
+        Some(e.strs[i].clone())
+    }
+    fn vfield(e: &CEnv, name: &str) -> Option<Version> {
+        let i = match name { "implementation_version" => 0, "python_full_version" => 1, "python_version" => 2, _ => return None };
+        Version::from_str(&e.vers[i]).ok()
+    }
+    fn go(t: &MarkerTree, e: &CEnv, extras: &[ExtraName]) -> Option<bool> {
         match t.kind() {
             MarkerTreeKind::True => Some(true),
             MarkerTreeKind::False => Some(false),
             MarkerTreeKind::Version(m) => {
-                let v = env.get_version(m.key());
-                let hits: Vec<_> = m.edges().filter(|(r, _)| r.contains(v)).collect();
+                let v = vfield(e, &m.key().to_string())?;
+                let hits: Vec<_> = m.edges().filter(|(r, _)| r.contains(&v)).collect();
                 if hits.len() != 1 { return None; }
-                go(&hits[0].1, env, extras)
+                go(&hits[0].1, e, extras)
             }
             MarkerTreeKind::String(m) => {
-                let v = env.get_string(m.key()).to_string();
+                let v = sfield(e, &m.key().to_string())?;
                 let hits: Vec<_> = m.children().filter(|(r, _)| r.contains(&v)).collect();
                 if hits.len() != 1 { return None; }
-                go(&hits[0].1, env, extras)
+                go(&hits[0].1, e, extras)
             }
-            MarkerTreeKind::In(m) => go(&m.edge(m.value().contains(env.get_string(m.key()))), env, extras),
-            MarkerTreeKind::Contains(m) => go(&m.edge(env.get_string(m.key()).contains(m.value())), env, extras),
+            MarkerTreeKind::In(m) => go(&m.edge(m.value().contains(&sfield(e, &m.key().to_string())?)), e, extras),
+            MarkerTreeKind::Contains(m) => go(&m.edge(sfield(e, &m.key().to_string())?.contains(m.value())), e, extras),
             MarkerTreeKind::Extra(m) => {
                 let on = match m.name() { MarkerValueExtra::Extra(x) => extras.contains(x), _ => false };
-                go(&m.edge(on), env, extras)
+                go(&m.edge(on), e, extras)
             }
         }
     }
-    go(t, &env, &extras)
+    go(t, e, &extras)
 }
 
 // ---------------------------------------------------------------------------------------------
@@ -1006,17 +1019,26 @@ pub fn run(out: &mut Out, tier: &str, seed: u64, prop: &str) {
                 }
             }
             // extra == 'N' atoms in every spelling: expression correspondence + meaning
-            for e in &pe.extras {
+            // (names that between them use every ASCII letter and digit, in every position; validity and normal form are judged
+            //  by the independent reading of the name rules — `names::spec` — not by the crate's own constructors)
+            let alphabet_names = ["py39", "9x", "x9", "a0b1c2d3e4f5g6h7i8j9", "klmnopqrstuvwxyz", "ABCDEFGHIJKLMNOPQRSTUVWXYZ", "0-1_2.3", "cp39-CUDA_11.9", "z"];
+            let mut c11_extras: Vec<&str> = pe.extras.clone();
+            c11_extras.extend(alphabet_names);
+            for e in &c11_extras {
                 for neg in [false, true] {
                     let t = Term::X(neg, e.to_string());
                     let Some(m) = try_build(out, "C11", &t) else { return };
                     out.evaluations += 1;
-                    out.case(format!("dump\t{}", t.line()), format!("{}\twf=1", dump(&m)));
-                    for active in [vec![], vec!["foo.bar"], vec!["dev", "a"], vec!["FOO-BAR", "test"]] {
+                    if pe.extras.contains(e) { out.case(format!("dump\t{}", t.line()), format!("{}\twf=1", dump(&m))); }
+                    for active in [vec![], vec!["foo.bar"], vec!["dev", "a"], vec!["FOO-BAR", "test"], vec!["PY39", "9X", "x9"], vec!["a0b1c2d3e4f5g6h7i8j9", "KLMNOPQRSTUVWXYZ", "abcdefghijklmnopqrstuvwxyz"], vec!["0_1-2.3", "cp39.cuda-11_9", "Z"]] {
+                        // every active name is valid by the rules: the crate has to agree (else the finding is about names, reported here too)
+                        if let Some(bad) = active.iter().find(|a| ExtraName::from_str(a).ok().map(|n| n.to_string()) != crate::names::spec(a)) {
+                            out.oracle_fail("C11", "a valid extra name is rejected / normalised differently by ExtraName::from_str", serde_json::json!({"name": bad}));
+                            continue;
+                        }
                         let mut env = CEnv::default_env();
                         env.extras = active.iter().map(|s| s.to_string()).collect();
-                        let valid = ExtraName::from_str(e).ok();
-                        let member = valid.as_ref().map(|v| env.extras().contains(v)).unwrap_or(false);
+                        let member = crate::names::spec(e).map(|n| active.iter().any(|a| crate::names::spec(a).as_deref() == Some(n.as_str()))).unwrap_or(false);
                         if env.eval(&m) != (member != neg) {
                             out.oracle_fail("C11", "extra ==/!= does not mean normalized-name membership", serde_json::json!({"extra": e, "neg": neg, "active": active}));
                         }
@@ -1393,6 +1415,41 @@ pub fn run(out: &mut Out, tier: &str, seed: u64, prop: &str) {
                         Err(_) => out.oracle_fail("C05", "panic while parsing a displayed expression", input),
                     }
                     out.stat("c05.expression_roundtrip");
+                }
+            }
+            // first spelling: the interner keeps the FIRST spelling of a bound (`X.Y.0` and `X.Y` are equal versions). A range first
+            // written with trailing zeros (`~= 'X.Y.0'`, `== 'X.Y.0.*'`), on version numbers nothing else in this process uses, and
+            // then the markers that share its node — its negation, the star inequality, the written-out gap — all have to render
+            // to a text that parses back to the same marker
+            {
+                let mut fresh = 31u64;
+                for key in ["python_full_version", "implementation_version", "python_version"] {
+                    for spelled in ["{k} ~= '{x}.{y}.0'", "{k} ~= '{x}.{y}.0.0'", "{k} == '{x}.{y}.0.*'", "{k} >= '{x}.{y}.0' and {k} < '{x}.{z}.0'", "'{x}.{y}.0' ~= {k}"] {
+                        fresh += 1;
+                        let fill = |t: &str| t.replace("{k}", key).replace("{x}", &fresh.to_string()).replace("{y}", "4").replace("{z}", "5");
+                        let first = fill(spelled);
+                        let Ok(m0) = MarkerTree::from_str(&first) else { out.oracle_fail("C05", "a well-formed marker does not parse", serde_json::json!({"text": first})); continue };
+                        let mut later: Vec<(String, MarkerTree)> = vec![(format!("not ({first})"), m0.negate()), (first.clone(), m0.clone())];
+                        for t in ["{k} != '{x}.{y}.*'", "{k} < '{x}.{y}' or {k} >= '{x}.{z}'", "{k} != '{x}.{y}'", "{k} < '{x}.{y}' or {k} > '{x}.{y}'", "({k} < '{x}.{y}' or {k} >= '{x}.{z}') and os_name == 'nt'",
+                                  "{k} == '{x}.{y}.*' or extra == 'docs'", "{k} >= '{x}.{y}'", "{k} < '{x}.{z}'"] {
+                            let t = fill(t);
+                            if let Ok(m) = MarkerTree::from_str(&t) { later.push((t.clone(), m.clone())); later.push((format!("not ({t})"), m.negate())); }
+                        }
+                        for (src, m) in later {
+                            out.evaluations += 1;
+                            let Some(text) = m.try_to_string() else { continue };
+                            let input = serde_json::json!({"first_in_process": first, "then": src, "text": text});
+                            match catch_unwind(AssertUnwindSafe(|| MarkerTree::from_str(&text))) {
+                                Ok(Ok(back)) => if back != m && !(m.is_false() && crate::req::marker_equiv(&back, &m, 11)) { out.oracle_fail("C05", "after a range was first written with trailing zeros, the displayed text of a marker sharing its node parses to a different marker", input.clone()); },
+                                Ok(Err(e)) => out.oracle_fail("C05", &format!("the displayed text does not parse: {}", e.message), input.clone()),
+                                Err(_) => out.oracle_fail("C05", "panic while parsing the displayed text", input.clone()),
+                            }
+                            // and the DNF is the marker again
+                            let rebuilt = m.to_dnf().into_iter().fold(MarkerTree::FALSE, |mut acc, clause| { let mut c = MarkerTree::TRUE; for e in clause { c.and(MarkerTree::expression(e)); } acc.or(c); acc });
+                            if rebuilt != m && !m.is_true() { out.oracle_fail("C05", "after a range was first written with trailing zeros, the DNF of a marker sharing its node denotes a different marker", input); }
+                            out.stat("c05.first_spelling_cases");
+                        }
+                    }
                 }
             }
             for it in &items {
